@@ -468,6 +468,11 @@ func (e *skEmit) emitFault(n *skNode, ind int) {
 		n.Line = e.add(ind, fmt.Sprintf("%s %s;", KwReturn, x))
 	case "ml-binary":
 		// the fault sits alone on the middle line of a three-line statement
+		// (a composition of wrappers is grouped: "!1 + nx" after "1 +" would parse as
+		// (1 + !1) + nx and fail one line early, which is the generator's doing)
+		if len(f.Wraps) >= 2 {
+			x = "(" + x + ")"
+		}
 		first := e.add(ind, fmt.Sprintf("%s 1 +", KwPrint))
 		e.add(ind+1, x+" +")
 		e.add(ind+1, "2;")
